@@ -26,6 +26,7 @@ type C03Case struct {
 	Shape     string            `json:"shape"`              // group | whole | groupagg
 	GroupCols []string          `json:"group_cols,omitempty"`
 	ShowCols  []string          `json:"show_cols,omitempty"` // grouping columns in the select list
+	ShowAs    map[string]string `json:"show_as,omitempty"`   // output names of shown grouping columns: fresh, or the name of another grouping column (GROUP BY names source columns)
 	Aggs      []AggItem         `json:"aggs"`
 	Star      bool              `json:"star,omitempty"`
 	Where     *sq.E             `json:"where,omitempty"`
@@ -188,7 +189,33 @@ func genC03(t *rapid.T) any {
 			}
 			c.Star = rapid.IntRange(0, 3).Draw(t, "star") == 0
 		}
-		if rapid.IntRange(0, 2).Draw(t, "hashaving") == 0 {
+		if c.Shape == "group" && !c.Star && len(c.ShowCols) > 0 && rapid.IntRange(0, 4).Draw(t, "showas") == 0 {
+			g1 := pick(t, c.ShowCols, "showas.col")
+			c.ShowAs = map[string]string{g1: "k_" + g1}
+			var others []string
+			for _, g := range c.GroupCols {
+				if g != g1 {
+					others = append(others, g)
+				}
+			}
+			if len(others) > 0 && rapid.IntRange(0, 3).Draw(t, "showas.other") != 0 {
+				// the output name is another grouping column's name; that column is shown under a fresh name or not at all
+				g2 := pick(t, others, "showas.name")
+				c.ShowAs[g1] = g2
+				keep := c.ShowCols[:0:0]
+				for _, g := range c.ShowCols {
+					if g != g2 {
+						keep = append(keep, g)
+					}
+				}
+				c.ShowCols = keep
+				if rapid.Bool().Draw(t, "showas.both") {
+					c.ShowCols = append(c.ShowCols, g2)
+					c.ShowAs[g2] = rapid.SampledFrom([]string{"k_" + g2, g1}).Draw(t, "showas.name2")
+				}
+			}
+		}
+		if c.ShowAs == nil && rapid.IntRange(0, 2).Draw(t, "hashaving") == 0 {
 			c.Having = genHaving(t, &sch, c.GroupCols, rapid.IntRange(0, 2).Draw(t, "hdepth"), "h")
 		}
 	}
@@ -280,7 +307,11 @@ func renderAgg(a AggItem) string {
 func renderC03(c *C03Case) string {
 	var items []string
 	for _, g := range c.ShowCols {
-		items = append(items, sq.Ident(g, nil))
+		it := sq.Ident(g, nil)
+		if as := c.ShowAs[g]; as != "" {
+			it += " AS " + sq.Ident(as, nil)
+		}
+		items = append(items, it)
 	}
 	for _, a := range c.Aggs {
 		items = append(items, renderAgg(a))
@@ -435,6 +466,10 @@ func refC03(c *C03Case) ([]any, int, []refGroup, error) {
 		kept = append(kept, g)
 		o := map[string]any{}
 		for _, name := range c.ShowCols {
+			if as := c.ShowAs[name]; as != "" {
+				o[as] = keyRow[name]
+				continue
+			}
 			o[name] = keyRow[name]
 		}
 		for _, a := range c.Aggs {
@@ -491,6 +526,13 @@ func checkC03(c *C03Case) Result {
 	}
 	if c.Star {
 		res.Labels = append(res.Labels, "star")
+	}
+	for g, as := range c.ShowAs {
+		if strings.HasPrefix(as, "k_") {
+			res.Labels = append(res.Labels, "key-alias:fresh")
+		} else if g != as {
+			res.Labels = append(res.Labels, "key-alias:other-key-name")
+		}
 	}
 	if len(rows) == 0 {
 		res.Labels = append(res.Labels, "empty-table")
